@@ -191,6 +191,10 @@ var pool = []string{"a/x", "a/y.proto", "a/sub/z", "b", "c/d/e", "a.b", "s t/u",
 var dirs = []string{"a", "a/sub", "c", "c/d", "s t", "é", "."}
 var prefixes = []string{"a", "c/d", "c", ".", "a/sub", "s t"}
 
+// MapOnPrefix documents that its prefix is "expected to be normalized and validated" and does not
+// check it: hostile prefixes must still never let an operation leave the PARENT bucket's root.
+var hostilePrefixes = []string{"../x", "a/../../b", "/abs", "a//b/", "..", "a/./c", "../root_sibling", "a/..", "./c/d/"}
+
 func obfuscate(r *hx.Rand, p string) string {
 	parts := strings.Split(p, "/")
 	var sb strings.Builder
@@ -319,6 +323,9 @@ func genHistory(r *hx.Rand, disk bool) history {
 	for i := 0; i < nLayers; i++ {
 		if r.Chance(3, 4) {
 			p := hx.Pick(r, prefixes)
+			if r.Chance(1, 6) {
+				p = hx.Pick(r, hostilePrefixes)
+			}
 			h.layers = append(h.layers, layer{kind: 'p', prefix: p})
 		} else {
 			enc, m := genMatcher(r)
@@ -337,7 +344,7 @@ func genHistory(r *hx.Rand, disk bool) history {
 		}
 	}
 	// make sure something lives under the full prefix reasonably often
-	if full != "." && r.Chance(2, 3) {
+	if _, verr := normalpath.NormalizeAndValidate(full); verr == nil && full != "." && r.Chance(2, 3) {
 		k := normalpath.Join(full, "in")
 		okKey := true
 		for p := range seen {
